@@ -143,7 +143,7 @@ func runC07(c *Ctx) {
 		return
 	}
 	cfgs := []Cfg{{Ext: "all", AutoID: true, Attr: true}, {Ext: "gfm", Attr: true, XHTML: true}, {Ext: "core"}, {Ext: "cjk", Unsafe: true}, {Ext: "footnote", AutoID: true}, {Ext: "typo", Attr: true},
-		{Ext: "footnote", FnPrefix: "p-"}, {Ext: "gfm+footnote", FnPrefix: "article1-", FnPrefixFunc: true, XHTML: true}}
+		{Ext: "footnote", FnPrefix: "p-"}, {Ext: "gfm+footnote", FnPrefix: "article1-", FnPrefixFunc: true, XHTML: true}, {Ext: "all", Opts: true, AutoID: true}}
 	rounds := 2
 	if !c.Quick() {
 		rounds = 12
